@@ -73,9 +73,9 @@ def answering(profile):
     return profile
 
 
-def with_io(c, profile, when, echo0=True, pixels=(0, 0), asks=None, pname="?"):
+def with_io(c, profile, when, echo0=True, pixels=(0, 0), asks=None, pname="?", redirected=False):
     c = dict(c)
-    c["tty"] = True
+    c["tty"] = not redirected   # False: standard output is a pipe; the active terminal is still there
     profile = answering(profile)
     io = {"profile": profile, "pname": pname, "when": list(when), "echo0": echo0, "pixels": list(pixels),
           "timeout": timeout_for(profile)}
@@ -124,6 +124,14 @@ def corpus(quick):
     cs.append(with_io(c0, P["silent"], ["window"], pname="silent"))
     cs.append(with_io(c0, P["da1-only"], ["read", "window"], pname="da1-only"))
     cs.append(with_io(dict(c0, pad=[12, 6], va=2), P["vte"], ["split"], pname="vte"))
+    # standard output redirected: the terminal is still asked; its screen must receive nothing
+    cs.append(with_io(c0, P["xterm"], ["window"], pname="xterm", redirected=True))
+    cs.append(with_io({"api": "old", "style": "kitty", "kitty_version": [0, 30, 0], "term_size": [10, 8], "img": blk3,
+                       "cells": [2, 2], "pad": [4, 3], "ha": 1, "va": 1, "repeat": 1, "args": {}}, P["wezterm"], ["split"],
+                      pname="wezterm", redirected=True))
+    cs.append(with_io({"api": "new", "term_size": [9, 7], "size": [3, 2], "frames": 2, "frame_kind": "text", "seed": 1,
+                       "padding": ex, "fill": "star", "animate": True, "loops": 1, "cache": False},
+                      P["konsole"], ["window", "read"], asks=["colors", "name", "cell"], pname="konsole", redirected=True))
     # the window's pixel size is known: the graphics styles do not ask
     cs.append(with_io({"api": "old", "style": "kitty", "kitty_version": [0, 30, 0], "term_size": [10, 8], "img": one,
                        "cells": [2, 2], "pad": [4, 3], "ha": 1, "va": 1, "args": {}}, P["kitty"], ["window"],
@@ -169,7 +177,7 @@ def gen(rng, c06):
             profile["cell"] = list(b"\x1b[6;%d;%dt" % (ch, cw))
         if profile.get("area") is not None:
             profile["area"] = list(b"\x1b[4;%d;%dt" % (ch * th + rng.choice([0, 3]), cw * tw + rng.choice([0, 5])))
-    return with_io(c, profile, when, echo0, pixels, asks, pname=pname)
+    return with_io(c, profile, when, echo0, pixels, asks, pname=pname, redirected=rng.random() < 0.15)
 
 
 def bl(xs):
@@ -179,18 +187,22 @@ def bl(xs):
 def qcase_term(c06, c, r):
     """(Coq term, token counts of the requests) -- raises lexer.LexError on an unlexable screen"""
     io = c["term_io"]
+    redirected = not c.get("tty", True)
     out = r["out"]
     cuts = []
     for ex in r["exchanges"]:
-        prefix = c06.toks(out[:ex["cpos"]])
+        # (redirected: the own stream does not go to the terminal; the position is that in the
+        # terminal's stream, empty if the property holds)
+        prefix = c06.toks((r["term"] if redirected else out)[:ex["cpos"]])
         if prefix and prefix[-1][0] == "cut":
             raise lexer.LexError(f"a query request interrupts a control sequence at character {ex['cpos']} of the screen's stream")
         w = [p[1] for p in ex["pieces"] if p[0] != 1]
         rd = [p[1] for p in ex["pieces"] if p[0] == 1]
         cuts.append((len(prefix), w, rd))
-    q_self = c["api"] == "new" and not c.get("echo_input", False)
+    q_self = c["api"] == "new" and not c.get("echo_input", False) and not redirected
     term = ("{| q_c := " + c06.case_term(c, r) + f"; q_e0 := {c06.b(io.get('echo0', True))}; q_self := {c06.b(q_self)}; q_cuts := "
-            + core.coq_list(cuts, lambda t: f"({t[0]}%nat, ({core.coq_list(t[1], bl)}, {core.coq_list(t[2], bl)}))") + " |}")
+            + core.coq_list(cuts, lambda t: f"({t[0]}%nat, ({core.coq_list(t[1], bl)}, {core.coq_list(t[2], bl)}))")
+            + f"; q_redirected := {c06.b(redirected)}; q_term := {lexer.coq_toks(c06.toks(r['term']) if redirected else [])}" + " |}")
     return term, [k for k, _, _ in cuts]
 
 
@@ -199,6 +211,7 @@ def describe(c06, c):
     answered = [k for k, v in io["profile"].items() if v is not None]
     return (c06.describe0(c) + f" ON A TERMINAL THAT ANSWERS {answered} (profile {io.get('pname')}), replies written at {io['when']}, "
             f"tty found with ECHO {'on' if io.get('echo0', True) else 'off'}, window pixels {io.get('pixels')}"
+            + ("" if c.get("tty", True) else ", STANDARD OUTPUT REDIRECTED to a pipe (the terminal is still asked)")
             + (f", echo_input={c.get('echo_input', False)}, the render asks {io.get('asks')}" if c["api"] == "new" else ""))
 
 
@@ -214,7 +227,7 @@ def run(c06, cases, quick):
     impl = core.run_impl_parallel("impl_c06_tty.py", cases, chunk=chunk)
     t_impl = time.time() - t0
     failures, mismatches, errors = [], [], []
-    hist = {"api": {}, "style": {}, "profile": {}, "schedule": {}, "exchanges_per_draw": {}, "queries": {}, "echo_found": {},
+    hist = {"stdout": {"terminal": 0, "redirected": 0}, "api": {}, "style": {}, "profile": {}, "schedule": {}, "exchanges_per_draw": {}, "queries": {}, "echo_found": {},
             "reply_pieces_at": {"window": 0, "read": 0, "no-termios-call-followed": 0}, "raised": 0, "accepted": 0,
             "animated": 0, "self_echo_off(new API, echo_input=False)": 0, "draws_that_asked": 0}
     distinct = set()
@@ -229,7 +242,8 @@ def run(c06, cases, quick):
         hist["style"][st] = hist["style"].get(st, 0) + 1
         hist["profile"][io.get("pname")] = hist["profile"].get(io.get("pname"), 0) + 1
         hist["echo_found"][str(io.get("echo0", True))] = hist["echo_found"].get(str(io.get("echo0", True)), 0) + 1
-        replay = {"case": c, "screen_stream": visible(r.get("out", ""), 3000), "exchanges": [
+        hist["stdout"]["terminal" if c.get("tty", True) else "redirected"] += 1
+        replay = {"case": c, "screen_stream": visible(r.get("term", r.get("out", "")), 3000), "exchanges": [
             {k: ex.get(k) for k in ("names", "when", "cpos", "echo_at_send")} | {"reply": visible(bytes(ex.get("reply", [])).decode("latin-1"), 200),
                                                                                  "pieces_at": [p[0] for p in ex.get("pieces", [])]}
             for ex in r.get("exchanges", [])]}
@@ -248,7 +262,7 @@ def run(c06, cases, quick):
             term, ks = qcase_term(c06, c, r)
         except lexer.LexError as e:
             failures.append({"signature": core.sig(["tty-lex", c06.failure_class(c, r)]),
-                             "what": (f"the screen received something that is not part of a drawing: {e} -- the stream: {visible(r['out'])} -- {describe(c06, c)}"),
+                             "what": (f"the screen received something that is not part of a drawing: {e} -- the stream: {visible(r.get('term', r['out']))} -- {describe(c06, c)}"),
                              "replay": replay})
             continue
         terms.append(term)
@@ -290,9 +304,11 @@ def run(c06, cases, quick):
                     "what": ("draw() on a terminal that ANSWERS the queries the draw makes: what the screen received violates the property "
                              f"({len(r['exchanges'])} exchange(s): " + "; ".join(
                                  f"{'+'.join(ex['names'])} answered at {ex['when']} with the tty's ECHO {'ON' if any(p[2] for p in ex['pieces']) else 'off'} at the arrival"
-                                 for ex in r["exchanges"]) + f"; {len(echoed)} reply(ies) arrived while ECHO was on). The screen's stream begins: {visible(r['out'], 400)} "
+                                 for ex in r["exchanges"]) + f"; {len(echoed)} reply(ies) arrived while ECHO was on). "
+                             + ("STANDARD OUTPUT IS REDIRECTED and the terminal's screen received: " + visible(r.get("term", ""), 400) if not c.get("tty", True)
+                                else f"The screen's stream begins: {visible(r['out'], 400)} ") +
                              "-- (((box), raised, rule holds, (first token difference with the plain model, lengths), per start row the clauses [row, col, sgr, visible, clean, scroll, "
-                             f"inside-box, content, no-stale-placements]), (first difference with DrawQuery.screen of the model's run, length)) = {why} -- {describe(c06, c)}"),
+                             f"inside-box, content, no-stale-placements]), redirected, tokens the terminal received when redirected, (first difference with DrawQuery.screen of the model's run, length)) = {why} -- {describe(c06, c)}"),
                     "replay": replay})
             else:
                 mismatches.append({"case": c, "code": code, "explain": why, "screen_stream": visible(r["out"], 600)})
